@@ -59,6 +59,10 @@ impl BloomFilter {
     /// Adds data to the bloom filter
     pub fn add(&mut self, data: &[u8]) {
         debug!("Adding to bloom filter: {:?}", hex::encode(data));
+        if self.filter.is_empty() {
+            // An empty bit field has no bits to set; avoids `% 0` (as Bitcoin Core, CVE-2013-5700)
+            return;
+        }
         for i in 0..self.num_hash_funcs {
             let seed = Wrapping(i as u32) * Wrapping(0xFBA4C795) + Wrapping(self.tweak);
             let c = murmur3_32(&mut Cursor::new(&data), seed.0)
@@ -72,6 +76,10 @@ impl BloomFilter {
     ///
     /// There may be false positives, but there won't be false negatives.
     pub fn contains(&self, data: &[u8]) -> bool {
+        if self.filter.is_empty() {
+            // An empty bit field matches everything; avoids `% 0` (as Bitcoin Core, CVE-2013-5700)
+            return true;
+        }
         for i in 0..self.num_hash_funcs {
             let seed = Wrapping(i as u32) * Wrapping(0xFBA4C795) + Wrapping(self.tweak);
             let c = murmur3_32(&mut Cursor::new(&data), seed.0)
